@@ -79,6 +79,10 @@ Definition point_code (c : case) (p : cpoint) : N :=
   let s := cp_st p in
   if negb (updated_b c) && negb (holds_old_b b0 s) then 2
   else if negb (holds_old_b b0 s || (snd (c_tar c) && holds_new_b (fst (c_tar c)) s)) then 1
+  else if negb (cp_f p) then 0
+  else if negb (N.eqb (sv_status (c_srv2 c)) 200) then
+    (* a follow-up sync that cannot fetch: the previous tree must be at the path again *)
+    (if slot_eqb (base (cp_st2 p)) (logical s) && clean_b (cp_st2 p) then 0 else 4)
   else if negb (N.eqb (cp_out2 p) 0) then 3
   else if negb ((holds_new_b (fst (c_tar2 c)) (cp_st2 p) || slot_eqb (base (cp_st2 p)) (logical s))
                 && clean_b (cp_st2 p)) then 4
